@@ -326,6 +326,30 @@ CHECKS = {
         note="Trusted: TLC, the Lua C-API emulator (no Lua is installed), rt/vt.c. A non-integral number for an integer "
              "parameter is not judged. Known finding: bindings without overloads/defaults do not check their stack.",
     ),
+    "C05": dict(
+        level="exploration",
+        design="DESIGN.md section 4 / C05",
+        technique="TLA+ grammar LibGen (the admitted library descriptions; TLC -simulate yields the descriptions that are "
+                  "built) and TLA+ spec EmitOrder (helper closure model-checked with TLC; build traces -- module order, "
+                  "symbol tables read by nm -- and the real gather_helper_code validated by TLC); verdict on the files by "
+                  "gcc/g++/gfortran and the linker",
+        text="The domain is the set of library descriptions reachable in specs/LibGen.tla (24 parameter rows x 8 result "
+             "rows of harness/rt/cases.py, overloads, default arguments, a class, a namespace, language c/c++, wrapper "
+             "subsets, F_CFI, debug, doxygen, literalinclude, show_splicer_comments, line lengths 40/72/132) plus the "
+             "upstream corpus. TLC samples behaviours of LibGen (seeded); the harness materialises each description with "
+             "an implementation of the wrapped library, runs the real Shroud and compiles every file it wrote: headers "
+             "alone as C and C++, sources with -Werror=implicit-function-declaration, Fortran modules in the order of "
+             "--ffiles, Python modules against the CPython 3.12 headers (then linked with --no-undefined and imported), "
+             "Lua modules against the C API emulation; everything is linked with the library. Symbol tables and module "
+             "lists are validated by TLC against EmitOrder (modules before use, one definition per symbol, no unresolved "
+             "reference, unique include guards), the linker must agree. The helper dependency walk of wrapc/wrapf/wrapp "
+             "is replayed on enumerated dependency tables (with cycles) against the spec's depth-first order. The "
+             "upstream corpus is regenerated and built with upstream's Makefiles, libraries and test programs (which are "
+             "also run). Exploration, not proof: sampled descriptions, one toolchain.",
+        note="Trusted: gcc/g++/gfortran 12.2, binutils nm/ld, CPython 3.12 headers, the Lua C-API emulation headers (no "
+             "Lua installed), TLC, the row table. numpy is absent: corpus Python modules that need it are excluded and "
+             "counted. Known finding: Python wrapper of a const std::string & result with default arguments.",
+    ),
 }
 
 ALL = ["C%02d" % i for i in range(1, 19)]
